@@ -381,7 +381,7 @@ def run(ctx):
                 try:
                     g0 = np.atleast_1d(joint.g(system.t0, q0))
                     ninit += 1
-                    if np.max(np.abs(g0)) > 1e-12:
+                    if not (np.max(np.abs(g0)) <= 1e-12):
                         ctx.violation(f"{jname}:defined-config", f"{where}: g(t0, q0) = {g0.tolist()} in the configuration the joint was defined in", where)
                 except Exception as ex:
                     ctx.violation(f"{jname}:{'-'.join(kinds)}:raises", f"g(t0, q0) of {where} raised {type(ex).__name__}: {ex}", where)
